@@ -11,7 +11,8 @@ import runner
 
 VERIF = os.path.dirname(os.path.dirname(os.path.abspath(__file__)))
 KNOWN = os.path.join(VERIF, 'known_findings.txt')
-REPLAYS = os.path.join(VERIF, 'replays')
+REPLAYS = os.environ.get('VERIF_REPLAYS_DIR') or os.path.join(VERIF, 'replays')
+EVIDENCE = os.environ.get('VERIF_EVIDENCE_DIR') or os.path.join(VERIF, 'evidence')
 
 
 def load_known():
@@ -181,8 +182,8 @@ def report(prop, tier, seed, spec, results, kani_results, wall):
         violations=len(violations),
         status=status,
     )
-    os.makedirs(os.path.join(VERIF, 'evidence'), exist_ok=True)
-    with open(os.path.join(VERIF, 'evidence', prop + '.json'), 'w') as f:
+    os.makedirs(EVIDENCE, exist_ok=True)
+    with open(os.path.join(EVIDENCE, prop + '.json'), 'w') as f:
         json.dump(ev, f, indent=1)
 
     # ---------------- output ----------------
